@@ -178,7 +178,7 @@ func cryptoConcurrentUnits(oracle string) []core.Unit {
 		alg := alg
 		us = append(us, core.Unit{Name: fmt.Sprintf("concurrent-alg%d", alg), Weight: 60, Run: func(c *core.Ctx) {
 			for i := 0; i < c.Pick(3, 12); i++ {
-				k := &core.Case{Oracle: oracle, Target: "security", I: []int64{int64(alg), int64(c.R.Uint64() >> 1), 8, int64(c.Pick(4000, 60000)), int64([]int{2, 2, 3, 8}[i%4])}}
+				k := &core.Case{Oracle: oracle, Target: "security", I: []int64{int64(alg), int64(c.R.Uint64() >> 1), 8, int64(c.Pick(4000, 20000)), int64([]int{2, 2, 3, 8}[i%4])}}
 				c.Do(k)
 				c.NonTrivial(k.Hash())
 			}
